@@ -253,6 +253,8 @@ type CrashCase struct {
 	// crash points are then sampled: Sample points inside every Commit step plus Sample over the rest
 	Bulk   bool `json:"bulk,omitempty"`
 	Sample int  `json:"sample,omitempty"`
+	// OddPath: the database and its roots live under a directory whose name contains glob and format metacharacters
+	OddPath bool `json:"odd_path,omitempty"`
 	// Timed (part "timed"): the parent kills the child from outside after a delay, so the kill lands anywhere -
 	// inside a Badger call, inside a file write, between two instructions of fs_db - not only at hook points.
 	// KillAtPermille are the delays, in thousandths of the duration of the uncrashed run (measured from the
@@ -629,7 +631,13 @@ func ExecC04(cc CrashCase) *ev.Result {
 	r := &ev.Result{}
 	c := cc.Case
 	c.Prof = "c04"
-	base := filepath.Join(dbRoot(), fmt.Sprintf("c04-%d-%d", os.Getpid(), dirCounter.Add(1)))
+	name := fmt.Sprintf("c04-%d-%d", os.Getpid(), dirCounter.Add(1))
+	if cc.OddPath {
+		// a database path with characters that are ordinary in a directory name and special elsewhere
+		// (glob patterns, format strings, shells)
+		name = fmt.Sprintf("c04 [%d]*?%%s{a,b}-%d", os.Getpid(), dirCounter.Add(1))
+	}
+	base := filepath.Join(dbRoot(), name)
 	if err := os.MkdirAll(base, 0o755); err != nil {
 		panic(err)
 	}
